@@ -198,6 +198,7 @@ def build_world(cx, tilt_small=False):
 
     r = cx.rng
     L = cx.lines
+    L.append("import verif_script as V")
 
     def rangetext(x, w):
         if cx.randomized and r.random() < 0.5:
@@ -502,7 +503,8 @@ def gen_beyond(cx):
             if not vclose(N.pos, exp2):
                 out.append(f"position {N.pos} is not {O} beyond A on the line of sight ({exp2})")
         if not rclose(N.R, BR):
-            out.append(f"orientation euler {G.euler_of(N.R)} expected that of the `from` argument {G.euler_of(BR)}")
+            key = "beyond.from-orientation-ignored" if (bt is not None and rclose(N.R, np.eye(3))) else None
+            out.append((key, f"orientation euler {G.euler_of(N.R)} expected that of the `from` argument {G.euler_of(BR)}"))
         return out
 
     return "beyond", f"beyond.{ak}.{ok}.{bk}", check
@@ -601,7 +603,14 @@ def gen_relto(cx):
     if form == "hh":
         a, b = rnd(r, -3, 3), rnd(r, -3, 3)
         cx.lines.append(f"param r{k} = {f4(a)} relative to {f4(b)}")
-        return "relto", "relto.heading", lambda sv: ([] if aclose(sv.params[f"r{k}"], a + b) else [f"{sv.params[f'r{k}']} expected {a + b}"])
+
+        def check_hh(sv):
+            got = sv.params[f"r{k}"]
+            if hasattr(got, "q"):  # an Orientation: must be the pure heading a+b
+                return [] if rclose(G.quat_to_mat(got.q), G.euler(a + b)) else [f"{got} expected heading {a + b}"]
+            return [] if aclose(got, a + b) else [f"{got} expected {a + b}"]
+
+        return "relto", "relto.heading", check_hh
     if form in ("vv", "vv_offset"):
         a, b = cx.off(50), cx.pos()
         word = "relative to" if form == "vv" else "offset by"
@@ -1020,7 +1029,10 @@ def gen_facing(cx):
             hd = G.heading_of(N.R)
             exp = G.azimuth(los) + h
             if not aclose(hd, exp):
-                out.append(f"heading {hd} expected line-of-sight azimuth {G.azimuth(los)} + {h} = {G.norm_angle(exp)} (parentOrientation {pk})")
+                key = None
+                if pk == "yaw" and aclose(hd, exp + a):
+                    key = "facing.apparently-facing-ignores-parentOrientation"
+                out.append((key, f"heading {hd} expected line-of-sight azimuth {G.azimuth(los)} + {h} = {G.norm_angle(exp)} (parentOrientation {pk})"))
         return out
 
     return "facing", f"facing.{form}.{pk}" + (f".{tk}" if form not in ("heading", "euler", "orientation", "field", "withheading", "apparent") else ""), check
@@ -1179,6 +1191,12 @@ def make_program(seed, shard, index, tier, only_case=None):
         g = rng.choice(gens)
         first = len(cx.lines)
         kind, sig, chk = g(cx)
+        body = cx.lines[first:]
+        del cx.lines[first:]
+        cx.lines.append("try:")
+        cx.lines.extend("    " + ln for ln in body)
+        cx.lines.append("except Exception as e_:")
+        cx.lines.append(f"    V.LOG.append(({cx.k}, type(e_).__name__, str(e_)))")
         cx.cases.append((kind, sig, first, len(cx.lines), chk, cx.k))
     return cx
 
@@ -1220,8 +1238,6 @@ def world_checks(cx, sv):
 
 
 def classify(kind, sig, msg):
-    if sig.startswith("facing.apparent") and (".yaw" in sig) and "expected line-of-sight azimuth" in msg:
-        return "facing.apparently-facing-ignores-parentOrientation"
     return None
 
 
@@ -1230,6 +1246,7 @@ def run_program(cx, res, bump, wit, isolate=True):
     from rt import su
 
     src = "\n".join(cx.lines) + "\n"
+    su.script.LOG.clear()
     try:
         scenario = su.compile_scenic(src, mode2D=(cx.mode == "2d"))
         scene, _ = scenario.generate(maxIterations=200, verbosity=0)
@@ -1248,7 +1265,7 @@ def run_program(cx, res, bump, wit, isolate=True):
             except Exception as e2:
                 viols.append(
                     {
-                        "key": classify_error(sig, e2),
+                        "key": classify_error(cx, sig, type(e2).__name__, str(e2)),
                         "what": f"[{cx.mode}] {sig}: documented form raised {type(e2).__name__}: {str(e2)[:160]} :: {' / '.join(cx.lines[a:b])[:300]}",
                         "witness": dict(wit, case=k, sig=sig, program=sub),
                     }
@@ -1263,7 +1280,20 @@ def run_program(cx, res, bump, wit, isolate=True):
     bump("world_checks", n)
     for name, msg in wout:
         viols.append({"key": None, "what": f"[{cx.mode}] world: {msg}", "witness": dict(wit, case="world", program=src)})
+    errors = {e[0]: e for e in su.script.LOG}
     for kind, sig, a, b, chk, k in cx.cases:
+        if k in errors:
+            _, ename, emsg = errors[k]
+            bump("cases_raising")
+            res["evaluations"] += 1
+            viols.append(
+                {
+                    "key": classify_error(cx, sig, ename, emsg),
+                    "what": f"[{cx.mode}{',randomized' if cx.randomized else ''}] {sig}: documented form raised {ename}: {emsg[:160]} :: {' / '.join(x.strip() for x in cx.lines[a + 1 : b - 2])[:300]}",
+                    "witness": dict(wit, case=k, sig=sig, program=src),
+                }
+            )
+            continue
         try:
             out = chk(sv)
         except Exception as e:  # reading back failed
@@ -1282,17 +1312,25 @@ def run_program(cx, res, bump, wit, isolate=True):
 
         res["nontrivial"].append(_su.h([wit["seed"], wit["shard"], wit["index"], k]))
         for msg in out:
+            key = None
+            if isinstance(msg, tuple):
+                key, msg = msg
             viols.append(
                 {
-                    "key": classify(kind, sig, msg),
-                    "what": f"[{cx.mode}] {sig}: {msg} :: {' / '.join(cx.lines[a:b])[:400]}",
+                    "key": key,
+                    "what": f"[{cx.mode}] {sig}: {msg} :: {' / '.join(x.strip() for x in cx.lines[a + 1 : b - 2])[:400]}",
                     "witness": dict(wit, case=k, sig=sig, program=src),
                 }
             )
     return viols
 
 
-def classify_error(sig, e):
+def classify_error(cx, sig, ename, emsg):
+    if cx.randomized and ename == "RandomControlFlowError" and "cannot iterate through a random value" in emsg:
+        if sig.startswith(("scalarop.distance", "scalarop.angle", "scalarop.altitude", "facing.apparent")):
+            return "vector-scalar-operator.random-self-not-lifted"
+    if cx.randomized and ename == "TypeError" and "must be real number, not" in emsg and sig.startswith("scalarop.appheading"):
+        return "apparent-heading.random-position-not-lifted"
     return None
 
 
